@@ -12,14 +12,15 @@ for pid in allids:
         continue
     p = props[pid]
     for e in p["engines"]:
-        engines.setdefault(e["name"], []).append(pid)
+        if pid not in engines.setdefault(e["name"], []):
+            engines[e["name"]].append(pid)
     checks.append({
         "property_id": pid,
         "quick_cmd": f"./check {pid} --tier quick",
         "thorough_cmd": f"./check {pid} --tier thorough",
         "evidence_file": f"/verif/evidence/{pid}.json",
         "replay_cmd_template": f"./check {pid} --replay {{path}}",
-        "engine": "+".join(e["name"] for e in p["engines"]),
+        "engine": "+".join(e["name"] + ("(race)" if e.get("race") else "") for e in p["engines"]),
         "level_claimed": {"category": p.get("level", "proof"), "text": p["level_text"], "design_ref": f"DESIGN.md section 3, {pid}"},
         "level_note": p["level_note"],
         "technique": p.get("technique", "Lean 4 proof on an executable model + differential correspondence with the Go code"),
